@@ -278,6 +278,11 @@ def run(chk):
     chk.validated += n
     chk.notes["constructor_cases"] = n
     chk.notes["catalogue_sizes"] = {k: len(v) for k, v in catalog.items()}
+    if thorough:
+        import suite
+        ev = suite.trace_suite(chk)
+        if ev:
+            chk.notes["suite_results_contract_checked"] = suite.validate_contract(chk, ev)
     # every signal produced by library operations satisfies the contract
     c01.run_pipeline(chk, want=("C16",), mc=None, quick_cases=700, full_cases=30000, nconc=(2, 6))
     chk.assumptions.append("constructor arguments are drawn from the catalogue of kinds in spec/Contract.tla; "
